@@ -25,6 +25,10 @@ def main():
         # 2. proofs
         if getattr(mod, 'STAGES', None):
             ctx.prove(mod.STAGES, timeout=getattr(mod, 'COQ_TIMEOUT', 900))
+            if a.tier == 'thorough' and not any(b['kind'] == 'proof' for b in ctx.broken):
+                last = mod.STAGES[-1][-1]
+                last = last[0] if isinstance(last, (tuple, list)) else last
+                ctx.coqchk(last[:-2])
         # 3. correspondence model <-> implementation
         if hasattr(mod, 'correspondence'):
             mod.correspondence(ctx)
